@@ -33,6 +33,7 @@ RULE += ("; round 6: parents written in the reduced charge alphabet (+, -, 0) fo
 RULE += ("; round 7: entries that are no positions also in the frozen set of the charge swap; parents of 100-300 residues with half / a quarter / all but five positions frozen")
 RULE += ("; round 8: every move on reduced-alphabet parents")
 RULE += ("; round 9: children that carry a delta-max are asked for the permutant; default-shuffle mobility check")
+RULE += ("; round 10: parents whose movable positions all hold one letter while a different letter is frozen")
 EXHAUSTIVE = {"quick": False, "thorough": False}
 ASSUMPTIONS = [
     "frozen positions are 0-based indices (as the backend moves and the WL freeze-file define them)",
